@@ -9,6 +9,7 @@ import (
 	"fmt"
 	"sync"
 	"testing"
+	"time"
 
 	"github.com/tychoish/fun/erc"
 	"github.com/tychoish/fun/ers"
@@ -412,7 +413,13 @@ func countOf(in []error, e error) int {
 	return n
 }
 
+// checkSpec builds the tree and checks it, under a watchdog.
 func checkSpec(t vkit.TB, s Spec) (v val) {
+	vkit.Watch(tAgg, "C12:terminates", 30*time.Second, func() any { return s }, func() { v = checkSpecStep(t, s) })
+	return v
+}
+
+func checkSpecStep(t vkit.TB, s Spec) (v val) {
 	fail := func(key, f string, a ...any) { t.Helper(); vkit.Fail(t, tAgg, "C12:"+key, s, f, a...) }
 	failing := false
 	defer func() {
